@@ -64,8 +64,8 @@ CLAIMED = {
     note='m<=4 quick / m<=5 thorough, dimension m+9; identities over the reals; lemma instances are true facts about sin/cos/sqrt, z3 + nlsat tactic trusted',
     ref='DESIGN.md section 5 C16'),
  'C17': dict(
-    text='Symbolic execution of the real Results queries and Problem population accessors on recorded individuals with solver-variable vectors/costs, every combination of generation tags and front numbers, and of epsilon_add on point sets of solver variables; pairing, ordering, optimum and max-min-max obligations hold for all values. The generational-distance clause is NOT decided (SciPy C kernel), only smoke-run.',
-    note='<=3 individuals quick / <=4 thorough; epsilon_add <=2x2 (3x3 in 1-D) points; gd outside (listed under undecided in the evidence)',
+    text='Symbolic execution of the real Results queries and Problem population accessors on recorded individuals with solver-variable vectors/costs, every combination of generation tags and front numbers, and of epsilon_add on point sets of solver variables; pairing, ordering, optimum and max-min-max obligations hold for all values. For generational distance the SciPy cdist kernel (C code) is replaced by its contract (Euclidean distance matrix) and the aggregation artap adds (nearest reference point, mean, zero iff all computed points are reference points) is decided.',
+    note='<=3 individuals quick / <=4 thorough; epsilon_add <=2x2 (3x3 in 1-D) points; gd: distance kernel by contract, <=2x2 points',
     ref='DESIGN.md section 5 C17'),
  'C18': dict(
     text='One symbolic step of each real swarm helper from an arbitrary state: update_particle_best (replaced iff the old best does not dominate the new position), speed_constriction / update_velocity incl. the PSOGA override (every component within half the range, all draws and the box symbolic), update_position for OMOPSO/SMPSO/PSOGA (sum or violated bound, velocity reversed or damped by 0.001, result inside the box, positions and velocities arbitrary reals), update_global_best from an arbitrary invariant-satisfying leader archive (size bound, mutual non-domination). All obligations unsat for all values within the size bounds.',
